@@ -4,7 +4,7 @@ import os
 HERE = os.path.dirname(os.path.abspath(__file__))
 VARIANTS = ["IgnoreUnknownIdx", "UnlinkOnDeregister", "ResumeClearsBackoff", "IncBeforeSend", "NoClearOnLimit", "ResumeSkipsAcceptAll",
             "BackoffNeverReregisters", "RoundRobinStuck", "ConnErrIsFatal", "WakeSkipsAcceptAll", "PauseKeepsRegistered",
-            "RejoinPausedNoAvail", "ResetSeparate", "JumpToFirstAvailable", "ReportOnlyIfBitSet"]
+            "RejoinPausedNoAvail", "ResetSeparate", "JumpToFirstAvailable", "ReportOnlyIfBitSet", "ResendWithoutCheck"]
 DESIGN = {"IgnoreUnknownIdx": "TRUE", "ResumeClearsBackoff": "TRUE"}
 INVS = ("TypeOK C01_Conservation C01_ServedOnce C01_NoSilentDrop C02_Bound C02_NoForcedSend C03_NoLostWake "
         "C04_RoundRobin C04_BitsTrueWhenCalm C05_ListenerLive C05_UdsReachable C05_ConnErrNoDelay C05_TimerHasTimeout C08_NoPanic "
@@ -86,8 +86,9 @@ cfg("NEG_ConnErrIsFatal", 1, 1, 1, [], 2, errs=1, flip=["ConnErrIsFatal"])
 cfg("NEG_WakeSkipsAcceptAll", 1, 1, 1, [], 2, flip=["WakeSkipsAcceptAll"], invs="C03_NoLostWake")
 cfg("NEG_PauseKeepsRegistered", 1, 1, 1, [], 2, cmds=2, flip=["PauseKeepsRegistered"])
 cfg("NEG_ResumeClearsBackoff", 1, 1, 1, [], 2, cmds=3, errs=1, flip=["ResumeClearsBackoff"], invs="", props="Steps")
-cfg("NEG_RejoinPausedNoAvail", 1, 1, 1, [], 2, cmds=2, faults=1, flip=["RejoinPausedNoAvail", "ResetSeparate", "JumpToFirstAvailable", "ReportOnlyIfBitSet"], invs="C03_NoLostWake C04_BitsTrueWhenCalm")
+cfg("NEG_RejoinPausedNoAvail", 1, 1, 1, [], 2, cmds=2, faults=1, flip=["RejoinPausedNoAvail", "ResetSeparate", "JumpToFirstAvailable", "ReportOnlyIfBitSet", "ResendWithoutCheck"], invs="C03_NoLostWake C04_BitsTrueWhenCalm")
 cfg("NEG_ResetSeparate", 2, 1, 1, [], 4, flip=["ResetSeparate"], invs="C03_NoLostWake C04_BitsTrueWhenCalm")
 cfg("NEG_JumpToFirstAvailable", 3, 1, 1, [], 5, flip=["JumpToFirstAvailable"], invs="")
 cfg("NEG_ReportOnlyIfBitSet", 2, 1, 1, [], 4, faults=2, flip=["ReportOnlyIfBitSet"], invs="C08_NoLostIndex")
+cfg("NEG_ResendWithoutCheck", 3, 1, 1, [], 4, faults=1, flip=["ResendWithoutCheck"], invs="")
 print("configs written")
